@@ -1097,7 +1097,9 @@ func (s *SSEServer) sendSuccessResponse(requestID interface{}, result interface{
 	// Serialize full response.
 	fullResponseData, err := json.Marshal(response)
 	if err != nil {
-		s.logger.Errorf("Error encoding full response: %v", err)
+		// The caller was told 202 Accepted: report the un-encodable result as an internal error instead
+		// of leaving the request unanswered.
+		s.handleRequestError(fmt.Errorf("failed to encode result: %w", err), requestID, session)
 		return
 	}
 
